@@ -725,8 +725,9 @@ func (cpu *CPU) ChangeRegisterSizes_X() {
 		cpu.RXl = uint8(cpu.RX)
 		cpu.RYl = uint8(cpu.RY)
 	} else {
-		cpu.RX = cpu.RX&0xff00 | uint16(cpu.RXl)
-		cpu.RY = cpu.RY&0xff00 | uint16(cpu.RYl)
+		// the high bytes were forced to zero while the index registers were 8 bits wide
+		cpu.RX = uint16(cpu.RXl)
+		cpu.RY = uint16(cpu.RYl)
 	}
 }
 
